@@ -362,7 +362,7 @@ class DisjunctionMaxMatcher(UnionMatcher):
         # It's kind of tedious to check for inactive sub-matchers all over
         # again here after we replace them, but it's probably better than
         # returning a replacement with an inactive sub-matcher
-        if not (a_active and b_active):
+        if not (a_active or b_active):
             return mcore.NullMatcher()
         elif not a_active:
             return b
@@ -375,12 +375,22 @@ class DisjunctionMaxMatcher(UnionMatcher):
             return self
 
     def score(self):
-        if not self.a.is_active():
-            return self.b.score()
-        elif not self.b.is_active():
-            return self.a.score()
+        a = self.a
+        b = self.b
+        if not a.is_active():
+            return b.score()
+        elif not b.is_active():
+            return a.score()
+
+        # Only a sub-matcher that is on the current document has a score for it
+        id_a = a.id()
+        id_b = b.id()
+        if id_a < id_b:
+            return a.score()
+        elif id_b < id_a:
+            return b.score()
         else:
-            return max(self.a.score(), self.b.score())
+            return max(a.score(), b.score())
 
     def max_quality(self):
         return max(self.a.max_quality(), self.b.max_quality())
@@ -389,6 +399,7 @@ class DisjunctionMaxMatcher(UnionMatcher):
         return max(self.a.block_quality(), self.b.block_quality())
 
     def skip_to_quality(self, minquality):
+        self._id = None
         a = self.a
         b = self.b
 
